@@ -66,18 +66,23 @@ def gen_c13(rnd, n, thorough=False):
             lines += ["lockcreate f", "lockblock f"]
             tags = {'kind': kind}
         elif kind == 'copysession':
-            # a copy whose source is fetched from a server is one open-modify-Sync-close session on its
-            # destination: the destination stays locked while the source is being fetched
-            layout = CLI_LAYOUTS[rnd.pick(['two_1s', 'three_2s', 'single'])]
-            lines += fill_ops(rnd, 's/a.wsp', layout, 2, 0x3f000000, density=0.6, inconsistent=False)
-            if rnd.chance(0.6):
-                lines += fill_ops(rnd, 'd/a.wsp', layout, 2, 0x3f000000, density=0.4, inconsistent=False)
-            lines.append("clicopy src=s:a.wsp dest=d:a.wsp from=0 until=0 archive=-1 copynan=0 m=2 x=3f000000 layout=%s remote=1 probe=1" % lay_csv(layout))
+            # a copy whose source is fetched from a server, and another session on its destination started
+            # meanwhile: the two are serial -- the other session either found the destination as it was before
+            # the copy (then the copy worked on its result) or as the copy left it
+            layout = [(1, 30), (5, 12)]
+            sp = [("@-%d" % j, fbits(float(10 + j))) for j in range(0, 20) if rnd.chance(0.7) or j in (3, 5)]
+            dp = [(t, v) for t, v in sp if rnd.chance(0.8) or t == "@-5"]
+            dp = [(t, fbits(77.0) if t == "@-3" else v) for t, v in dp] + ([("@-3", fbits(77.0))] if all(t != "@-3" for t, _ in dp) else [])
+            for nm, pts in (('s/a.wsp', sp), ('d/a.wsp', dp)):
+                lines += ["create %s %s m 2 x 3f000000" % (nm, fmt_layout(layout)),
+                          "many %s 0 @ %d %s" % (nm, len(pts), " ".join("%s %016x" % tv for tv in pts)), "sync %s" % nm, "drop %s" % nm]
+            lines.append("clicopy src=s:a.wsp dest=d:a.wsp from=0 until=0 archive=-1 copynan=0 m=2 x=3f000000 layout=%s remote=1 intruder=@-3:%016x,@-5:%016x watch=@-3" % (
+                lay_csv(layout), fbits(100.0), fbits(200.0)))
             observe_all(lines, 'd/a.wsp', layout)
             tags = {'kind': kind}
         elif kind == 'gensession':
-            # generate is one session on the file it creates: the path is there and locked while it works
-            lines += ["cligenheld dest=g/x.wsp layout=%s" % lay_csv([(1, rnd.pick([3000, 3600])), (60, 100)]), "lockblock g/x.wsp"]
+            # two generate commands for one missing path, overlapping: exactly one creates the file
+            lines += ["cligen2 dest=g/x.wsp layout=%s stagger=%d" % (lay_csv([(1, rnd.pick([200000, 220000])), (60, 10000)]), rnd.pick([20, 30, 40])), "lockblock g/x.wsp"]
             tags = {'kind': kind}
         elif kind == 'childhold':
             layout = [(1, 20), (5, 10)]
